@@ -257,6 +257,19 @@ DirProbeViol(w, pr, at) ==
             {V(IF known THEN <<"C09", "C03">> ELSE <<"C03">>, at, "archetype-level lookup accepts a direct handle of another archetype")})
          : g \in SeqSet(pr.oth)}
 
+\* measured coverage of the oracle: how many probed keys were live / stale / forged (entity keys)
+\* and current / dead / foreign (direct keys) in this observation
+ProbeClasses(w, o) ==
+    LET ent(cls) == Cardinality({i \in DOMAIN o.pe :
+            CASE cls = "live" -> o.pe[i].k \in DOMAIN w.alive
+              [] cls = "stale" -> o.pe[i].k \notin DOMAIN w.alive /\ o.pe[i].k \in w.issued
+              [] cls = "forged" -> o.pe[i].k \notin DOMAIN w.alive /\ o.pe[i].k \notin w.issued})
+        dir(cls) == Cardinality({i \in DOMAIN o.pd :
+            CASE cls = "cur" -> DirTargets(w, o.pd[i].k) # {}
+              [] cls = "dead" -> DirTargets(w, o.pd[i].k) = {} /\ KnownDir(w, o.pd[i].k)
+              [] cls = "foreign" -> DirTargets(w, o.pd[i].k) = {} /\ ~KnownDir(w, o.pd[i].k)})
+    IN <<ent("live"), ent("stale"), ent("forged"), dir("cur"), dir("dead"), dir("foreign")>>
+
 ProbeCount(pr) ==
     LET RECURSIVE Sum(_, _)
         Sum(s, i) == IF i > Len(s) THEN 0 ELSE s[i][2] + Sum(s, i + 1)
@@ -300,7 +313,7 @@ ObserveWorld(w, o, keep, at) ==
                      {V(<<"C09">>, at, "a direct handle issued before a removal is bit-identical to one that is current now: the old copy is accepted again")})
         \* forget records that are dead and no longer probed (bounded state)
         w2 == [w1 EXCEPT !.dirs = {r \in @ : r.born = w1.rm[r.a + 1] \/ r.d \in probed}, !.deadD = dead]
-    IN [w |-> w2,
+    IN [w |-> w2, pc |-> ProbeClasses(w1, o),
         v |-> archViol \cup probeViol \cup countViol \cup reborn \cup MintClash(w1, at) \cup WorldEventViol(w1, o, at)]
 
 (***************************************************************************)
